@@ -124,7 +124,7 @@ func (t *Trace) Close() {
 // Fatal reports a harness (infrastructure) error: exit status 2, never a violation
 func Fatal(format string, a ...any) {
 	fmt.Fprintf(os.Stderr, "HARNESS-ERROR: "+format+"\n", a...)
-	os.Exit(2)
+	os.Exit(97)
 }
 
 // SetSink installs f as the receiver of verif events (nil removes it)
